@@ -33,6 +33,9 @@ func NewTimerRegistry(store *TimerStore, srIDs []string) *TimerRegistry {
 	return &TimerRegistry{
 		upstreams: upstreams,
 		store:     store,
+		// Every upstream starts at the epoch, so that is the composite
+		// watermark until the first watermark message arrives.
+		watermark: time.Unix(0, 0),
 	}
 }
 
